@@ -76,7 +76,7 @@ def handleCropF64 (fs : List (String × String)) : String :=
     let inside := fin && l ≥ 0 && t ≥ 0 && w ≥ 0 && h ≥ 0 && l < Float.ofNat W && t < Float.ofNat H &&
                   l + w ≤ Float.ofNat W && t + h ≤ Float.ofNat H
     let noop := w == 0 || h == 0 || dw == 0 || dh == 0
-    let specOk := if inside then got == "ok" else if noop then true else got != "ok"
+    let specOk := !(got.startsWith "panic") && (if inside then got == "ok" else if noop then true else got != "ok")
     let m : Option String := if model == got then none else some s!"model={model}"
     let s : Option String := if specOk then none else some s!"crop ({l},{t},{w},{h}) of {W}x{H}: got {got}"
     match m, s with
@@ -111,7 +111,7 @@ def handleCtor (fs : List (String × String)) : String :=
     let needBytes := W * H * psize
     let pixelKinds := kind == "typed_ref_new" || kind == "typed_slice" || kind == "typed_vec"
     let bigEnough := if pixelKinds then W * H ≤ len else needBytes ≤ len
-    let specOk := if bigEnough ∧ ¬ (misaligned ∧ ¬ pixelKinds) then got == "ok" else got != "ok"
+    let specOk := !(got.startsWith "panic") && (if bigEnough ∧ ¬ (misaligned ∧ ¬ pixelKinds) then got == "ok" else got != "ok")
     let m : Option String := if model == got then none else some s!"model={model}"
     let s : Option String := if specOk then none else some s!"{kind} {W}x{H} psize={psize} len={len} mis={mis}: got {got}"
     match m, s with
